@@ -806,9 +806,11 @@ func reifyPrimitive(
 	// zero initialize value if val==nil
 	if isNil(val) {
 		v := tryInitDefaults(pointerize(t, baseType, reflect.Zero(baseType)))
-		if val != nil && hasInitDefaults(baseType) {
-			// values set by InitDefaults must validate like values read from
-			// the configuration
+		if val != nil {
+			// a null setting stands for the zero value (or what InitDefaults
+			// makes of it), which must validate like values read from the
+			// configuration: for the elements of lists and maps nobody else
+			// looks at it
 			dflt := chaseValuePointers(v)
 			if err := runValidators(dflt.Interface(), opts.validators); err != nil {
 				return reflect.Value{}, raiseValidation(val.Context(), val.meta(), "", err)
